@@ -287,6 +287,17 @@ func (s *Sim) processSync(y int, msg *lnwire.ChannelReestablish) {
 	r := s.R
 	exp := s.M.ExpectRetransmit(y)
 	out, opened, closed, err := s.P[y].Chan.ProcessChanSyncMsg(ctxb, msg)
+	if err != nil && exp.MaySign && classify(err) == errConstraint {
+		// The documented "sign a new commitment inside resync" branch ran
+		// SignNextCommitment, and the commitment it owes violates a channel
+		// constraint (e.g. the opener's own update_fee crossing the peer's
+		// add pushes the opener below the reserve). The same call fails the
+		// same way without any cut (opSign treats it as a constraint
+		// outcome); it is not a resynchronisation failure. Narrow: only when
+		// the model says this side signs inside resync, only constraint
+		// classes.
+		s.constraintAbort(nm(y)+".ProcessChanSyncMsg (sign inside resync)", err)
+	}
 	if err != nil {
 		r.Fail("sync-error", "%s.ProcessChanSyncMsg fails against an honest peer that lost only undelivered data: %v", nm(y), err)
 	}
@@ -473,6 +484,11 @@ func (s *Sim) ForkParty(x int) *Party {
 	}
 	np.Chan = ch
 	np.LoadStale(r)
+	if p.Stale != nil {
+		aged := *p.Stale //nolint:govet // deliberate value copy of an idle record
+		aged.Db = db.ChannelStateDB()
+		np.Aged = &aged
+	}
 	return np
 }
 
